@@ -1,7 +1,8 @@
 #!/bin/bash
 # usage: tools/try_seeded.sh <PROP> <dir-with-patch.diff-and-demo.py> [tier]
-# Confirms the seeded change in a scratch worktree of /repo HEAD (demo passes pristine, fails patched), then applies it to /repo,
-# runs the property's check, and restores /repo. Prints a one-line verdict.
+# Confirms the seeded change in a scratch worktree of /repo HEAD (demo passes pristine, fails patched) and runs the property's check
+# against that patched worktree (VERIF_REPO), so /repo itself is never modified and concurrent sweeps are not disturbed.
+# Evidence of these runs goes to /tmp, never to /verif/evidence. Prints a one-line verdict.
 set -u
 PROP=$1; D=$2; TIER=${3:-quick}
 WT=$(mktemp -d /tmp/seedwt.XXXXXX); rmdir $WT
@@ -12,11 +13,9 @@ trap cleanup EXIT
 if ! git -C $WT apply $D/patch.diff 2>/tmp/apply.err; then echo "SEEDED $D: patch does not apply: $(head -3 /tmp/apply.err)"; exit 3; fi
 ( cd $WT && PYTHONPATH=$WT timeout 900 /venv/bin/python $D/demo.py >/dev/null 2>&1 ); P1=$?
 echo "demo pristine exit=$P0 patched exit=$P1"
-cleanup; trap - EXIT
-if [ -n "$(git -C /repo status --porcelain --untracked-files=no)" ]; then echo "/repo dirty, abort"; exit 3; fi
-git -C /repo apply $D/patch.diff || exit 3
-( cd /verif && VERIF_EVIDENCE_DIR=/tmp/ev_seeded VERIF_TIER=$TIER timeout 3000 /venv/bin/python check.py $PROP --tier $TIER 2>&1 | grep -v conda > /tmp/seeded_$PROP.log ); RC=${PIPESTATUS[0]}
-git -C /repo checkout -- .
-grep -E "^(VIOLATION|KNOWN|HARNESS)" /tmp/seeded_$PROP.log | cut -c1-200
-grep -E "^  signature" /tmp/seeded_$PROP.log | head -5
-echo "SEEDED $D: check $PROP $TIER exit=$(grep -c '^VIOLATION' /tmp/seeded_$PROP.log) violations"
+LOG=/tmp/seeded_${PROP}_$$.log
+( cd /verif && VERIF_REPO=$WT VERIF_EVIDENCE_DIR=/tmp/ev_seeded timeout 6000 /venv/bin/python check.py $PROP --tier $TIER 2>&1 | grep -v conda > $LOG )
+grep -E "^(VIOLATION|HARNESS)" $LOG | cut -c1-200
+grep -E "^  signature" $LOG | head -5
+echo "SEEDED $D: check $PROP $TIER: $(grep -c '^VIOLATION' $LOG) violations"
+rm -f $LOG
